@@ -195,7 +195,7 @@ func main() {
 		os.RemoveAll(root)
 		os.Exit(code)
 	}
-	runs, hung, traces, events, maxEvents := 0, 0, 0, 0, 0
+	runs, hung, traces, parsed, events, maxEvents := 0, 0, 0, 0, 0, 0
 	var executed int64
 	outcomes := map[string]struct{}{}
 	fam := map[string]int{}
@@ -215,6 +215,9 @@ func main() {
 			return
 		}
 		traces++
+		if c.Dir == "" {
+			parsed++
+		}
 		fam[strings.SplitN(c.Family, "-register", 2)[0]]++
 		runs += res.Runs
 		hung += res.Hung
@@ -240,9 +243,10 @@ func main() {
 	if err != nil {
 		r.Infra("%v", err)
 	}
-	r.Cov["evaluations"] = runs + traces
+	r.Cov["evaluations"] = runs + parsed
 	r.Cov["simulation_runs"] = runs
-	r.Cov["traces_parsed_and_compared"] = traces
+	r.Cov["traces"] = traces
+	r.Cov["traces_parsed_and_compared"] = parsed
 	r.Cov["traces_by_family"] = fam
 	r.Cov["platform_shapes"] = len(shapeList)
 	r.Cov["runs_quiescent_with_work_outstanding"] = hung
